@@ -19,10 +19,10 @@ structure St where
   groups : List Key             -- target key of every group handed out (index = handle id)
   deriving DecidableEq, Repr
 
-inductive Op | adv | grpNext (g : Nat)
+inductive Op | adv | grpNext (g : Nat) | grpClose (g : Nat)
   deriving DecidableEq, Repr
 
-inductive Out | key (k : Key) (g : Nat) | item (v : Val) | stop
+inductive Out | key (k : Key) (g : Nat) | item (v : Val) | stop | closed
   deriving DecidableEq, Repr
 
 /-- `_GroupByState.step` / `groupby_step`: none = StopAsyncIteration (state unchanged) -/
@@ -98,19 +98,21 @@ def grpNext (s : St) (g : Nat) : St × Out :=
       | none => (s1, .stop)
       | some v => ({ s1 with cur := none }, .item v)
 
+/-- `_Grouper.aclose`: a closed current group is detached (a stale one is left alone); nothing is read.
+    itertools' group objects cannot be closed — the consumer simply drops them and never advances them again, which for
+    the shared cursor is the same thing: the dropped group no longer steps it. -/
+def grpClose (s : St) (g : Nat) : St := if s.grp = some g then { s with grp := none } else s
+
 def stepI (s : St) : Op → St × Out
-  | .adv => advI s | .grpNext g => grpNext s g
+  | .adv => advI s | .grpNext g => grpNext s g | .grpClose g => (grpClose s g, .closed)
 def stepS (s : St) : Op → St × Out
-  | .adv => advS s | .grpNext g => grpNext s g
+  | .adv => advS s | .grpNext g => grpNext s g | .grpClose g => (grpClose s g, .closed)
 
 def run (f : St → Op → St × Out) : St → List Op → List Out
   | _, [] => []
   | s, op :: ops => (f s op).2 :: run f (f s op).1 ops
 
 def init (items : List (Val × Key)) : St := ⟨items, none, none, none, none, []⟩
-
-/-- `_Grouper.aclose` (asyncstdlib only): a closed current group is detached -/
-def grpClose (s : St) (g : Nat) : St := if s.grp = some g then { s with grp := none } else s
 
 /-- Readable specification: maximal runs of equal keys -/
 def runs : List (Val × Key) → List (Key × List Val)
